@@ -54,7 +54,9 @@ func (p *Pool[T]) Get(size int) (T, int) {
 
 // Put takes x and its size for future reuse.
 func (p *Pool[T]) Put(x T, size int) {
-	if size < p.stepSize {
+	// only a size that is one of the pool's size classes can be handed out again
+	// as "at least that class": anything else would be served to a larger request
+	if size < p.stepSize || p.size(size) != size {
 		return
 	}
 
